@@ -117,6 +117,21 @@ def payload_values():
         tags: list[str]
         born: dt.date
 
+    import decimal
+    import enum
+    import uuid
+
+    class Colour(enum.Enum):
+        RED = "red"
+
+    class Rich(pydantic.BaseModel):
+        uid: uuid.UUID
+        amount: decimal.Decimal
+        colour: Colour
+        members: set[int]
+        when: dt.datetime
+        wait: dt.timedelta
+
     return [
         ("none", None),
         ("nested", {"a": [1, 2.5, {"b": None, "c": [True, False]}], "s": "x\"y\\z é ☃", "n": -7}),
@@ -124,6 +139,8 @@ def payload_values():
         ("pydantic-top", User(name="n", tags=["a", "b"], born=dt.date(2001, 2, 3))),
         ("pydantic-nested", {"u": User(name="n", tags=[], born=dt.date(1999, 12, 31))}),
         ("dates", {"d": dt.date(2024, 2, 29), "t": dt.datetime(2024, 2, 29, 12, 30, 15, 123456), "td": dt.timedelta(days=3, microseconds=7)}),
+        ("pydantic-rich-nested", [{"r": Rich(uid=uuid.UUID(int=7), amount=decimal.Decimal("1.50"), colour=Colour.RED, members={3},
+                                             when=dt.datetime(2020, 1, 2, 3, 4, 5), wait=dt.timedelta(seconds=90))}]),
         ("key-like-string", "__repid_payload_id "),
         ("key-like-list", ["__repid_payload_id"]),
     ]
@@ -177,6 +194,10 @@ def h07_e2e(S, backend="mem"):
                   result_id="res-9", result_ttl=S.timedelta("result_ttl", SEC, HUNDRED_Y) if store else None,
                   _connection=conn)
         sent = await job.enqueue()
+        if bucket:
+            # another job that happens to carry the same explicit id, on another queue, with other arguments
+            await mb.queue_declare("q_2")
+            await Job("other-job", queue="q_2", id_="id-1_A", args={"other": True}, _connection=conn).enqueue()
         delayed = deferred or has_by
         cat = MessageCategory.DELAYED if delayed else MessageCategory.NORMAL
         cons = mb.get_consumer("q_1", ["my-job_1"], None, cat)
@@ -231,7 +252,7 @@ HARNESSES = [
                     covers=["constructed", "foreign-payload"],
                     stubs=["construct() runs the real JSON encoder on a placeholder id which is then replaced by the symbolic id"]),
     Harness(name="H07-e2e-mem", scenario=_e2e("mem"), workers=16, budget_s=900,
-            bounds={"argument values": "8 concrete representatives (nested JSON, dataclass, pydantic models, dates/durations, marker-like strings)",
+            bounds={"argument values": "9 concrete representatives (nested JSON, dataclass, pydantic models, dates/durations, marker-like strings)",
                     "job settings": "priority in {LOW, MEDIUM, HIGH}; timeout/ttl/deferred_by/result_ttl any µs in [1 s, 100 y]; deferred_until any future µs; retries any int; every optional setting on/off; inline or bucket transport"},
             functions=["job.py:Job.enqueue", "_processor.py:_Processor.get_payload"], covers=["received"]),
     Harness(name="H07-e2e-redis", scenario=_e2e("redis"), workers=16, budget_s=900,
